@@ -17,7 +17,7 @@ EXPLANATION = (
 NOT_DECIDED = ["tie order of np.argsort (any order of tied rows satisfies the statement)", "that argsort returns a permutation (library)"]
 ASSUMPTIONS = ["lo <= hi", "remove_resolved off"]
 TRUSTED = ["python ast", "sedlint E4/E5"]
-MIN = {'PERM-1': 6, 'PERM-7': 5, 'ALG-7': 2}
+MIN = {'PERM-1': 6, 'PERM-7': 5, 'ALG-7': 2, 'EFF-2': 1, 'ALG-10': 4}
 TECHNIQUE = 'static analysis: AST value numbering (gather/permutation atoms) and coherence-set comparison over FitInfo.sort and Models.fit'
 
 VOCAB = {'av', 'sc', 'chi2', 'model_name', 'model_fluxes', 'model_id', 'R', 'wt', 'A', 'S', 'F', 'L', 'err', 'valid', 'lo', 'hi', 'names', 'logd'}
@@ -109,9 +109,37 @@ def check_fit_rows(ctx):
     ctx.ok('ALG-7', 'predicted fluxes, distance-dependent', loc(fit), 'predicted == (log model flux at distance d + av*k)[best d] (see PERM-7 model_fluxes)', nontrivial=False)
 
 
+def check_alias_and_scale(ctx):
+    """(EFF-2) FitInfo.sort/keep only rebind attributes: info.model_name is the Models' own names array, so an in-place
+    permutation would re-label the grid for every later fit.  (ALG-10) the reported scale is read from logd == log10(distances/kpc),
+    the same grid the fluxes were scaled to."""
+    from . import common
+    from .. import readers
+    from ..effects import Effects
+    repo = ctx.repo
+    muts, inplace = common.fitinfo_mutators(ctx)
+    ci = repo.cls('fit_info', 'FitInfo')
+    if inplace:
+        for fi_, st in inplace:
+            ctx.violation('EFF-2', 'FitInfo.%s stores in place' % fi_.name, loc(fi_, getattr(st, 'lineno', None)),
+                          'in-place store reaches the arrays the record shares with the fitter (model_name is Models.names): later fits are mis-labelled', 'inplace-mutator')
+    else:
+        ctx.ok('EFF-2', 'FitInfo mutators rebind only', loc(ci.methods['sort']), 'sort/keep rebind attributes; arrays shared with the fitter are not written')
+    for version in (1, 2):
+        fi, I, h, m = readers.run_reader(repo, version)
+        ctx.fn(fi)
+        ref = readers.reference(False, True)
+        from ..interp import Obj
+        compare(ctx, 'ALG-10', 'reader v%d: logd is the log of the distance grid the fluxes use' % version, loc(fi), m.attrs.get('logd') if isinstance(m, Obj) else Unk('reader'), ref['logd'], None,
+                vocab={'dr', 'step'}, fns={'logspace', 'ceil', 'int'}, detail_ok='logd == log10(distances / kpc) with distances == logspace(log10 d0, log10 d1, n) kpc')
+        compare(ctx, 'ALG-10', 'reader v%d: distance grid' % version, loc(fi), m.attrs.get('_distances') if isinstance(m, Obj) else Unk('reader'), ref['distances'], None,
+                vocab={'dr', 'step'}, fns={'logspace', 'ceil', 'int'}, detail_ok='distances == logspace(log10 d0, log10 d1, n) kpc')
+
+
 def run(ctx):
     check_sort(ctx)
     check_fit_rows(ctx)
+    check_alias_and_scale(ctx)
 
 
 FI = 'sedfitter/fit_info.py'
